@@ -76,6 +76,45 @@ def _guarded(args):
         return {"harness_error": traceback.format_exc(limit=12), "case": case}
 
 
+class Isolated:
+    """Wraps a case function so that every case runs in its OWN forked child of the (pristine) pool worker.
+
+    Used where process-global state (class-level caches, module registries, the global RNG) is the subject of the check:
+    a pooled worker would otherwise carry such state from one case into the next and make results order dependent."""
+
+    def __init__(self, func):
+        self.func = func
+
+    def __call__(self, case):
+        import pickle
+        r, w = os.pipe()
+        pid = os.fork()
+        if pid == 0:
+            code = 0
+            try:
+                os.close(r)
+                try:
+                    payload = pickle.dumps(("ok", self.func(case)))
+                except Exception:
+                    payload = pickle.dumps(("err", traceback.format_exc(limit=12)))
+                with os.fdopen(w, "wb") as f:
+                    f.write(payload)
+            except BaseException:
+                code = 1
+            finally:
+                os._exit(code)
+        os.close(w)
+        with os.fdopen(r, "rb") as f:
+            data = f.read()
+        os.waitpid(pid, 0)
+        if not data:
+            raise HarnessError("isolated child died without a result")
+        kind, val = pickle.loads(data)
+        if kind == "err":
+            raise HarnessError("isolated child raised:\n" + val)
+        return val
+
+
 class Ctx:
     def __init__(self, tier: str, seed: int, out, workers: int | None = None):
         self.tier = tier
